@@ -790,29 +790,45 @@ func SplitNames(s string) []string {
 	return parts
 }
 
-// DecodeFields decodes a response as UTF fields for as long as that works and returns the
-// fields plus the undecoded tail; used by the monitor to say WHICH field of a response is off.
+// utfFields is the number of leading writeUTF fields of each response layout; what follows
+// is binary (int / short / forwarded bytes).
+var utfFields = map[string]int{
+	"IP": 2, "IPOther": 3, "PlayerCount": 2, "PlayerList": 3, "GetServers": 2, "GetServer": 2,
+	"GetPlayerServer": 3, "UUID": 2, "UUIDOther": 3, "ServerIP": 3,
+}
+
+// DecodeFields decodes the leading writeUTF fields of a response (as many as the layout of
+// its sub-channel has, or as many as decode for an unknown first field) and returns them plus
+// the undecoded binary tail; used by the monitor to say WHICH part of a response is off.
 func DecodeFields(b []byte) (fields []string, tail []byte) {
 	in := &input{b: b}
-	for {
+	max := -1
+	for max < 0 || len(fields) < max {
 		save := in.off
 		s, ok := in.utf()
 		if !ok {
 			in.off = save
 			break
 		}
-		// a "string" that is not printable is more likely a binary tail
-		printable := true
-		for _, r := range s {
-			if r < 0x20 {
-				printable = false
+		if max < 0 {
+			// a "string" that is not printable is more likely a binary tail
+			printable := true
+			for _, r := range s {
+				if r < 0x20 {
+					printable = false
+				}
+			}
+			if !printable {
+				in.off = save
+				break
 			}
 		}
-		if !printable {
-			in.off = save
-			break
-		}
 		fields = append(fields, s)
+		if len(fields) == 1 {
+			if n, known := utfFields[s]; known {
+				max = n
+			}
+		}
 	}
 	return fields, in.rest()
 }
